@@ -1,6 +1,6 @@
 CONSTANT MaxLen = 4
 CONSTANT SegSizes = {0, 1, 2, 3}
-CONSTANT Ecns = {0, 2, 3}
+CONSTANT Ecns = {0, 3}
 CONSTANT Srcs = {"none", "alt"}
 CONSTANT MaxGso = 3
 CONSTANT GroMax = 4
